@@ -34,6 +34,9 @@ import (
 var Targets = []string{"stream-header", "packet-conn", "packet-session", "floodsub-packet", "solicit-exchange",
 	"signaling-request", "signaling-response", "webrtc-signal", "signed-msg", "envelope", "peer-id", "keys"}
 
+// "floodsub-stream" (a whole peer stream fed to a real FloodSub node) is a target of Run as well; it costs 0.1-0.2 s per
+// execution (the router evaluates every 100 ms) and is driven by TestC40Stream / FuzzFloodsubStream.
+
 // chunkReader serves bytes in chunks and remembers the largest request.
 type chunkReader struct {
 	data   []byte
@@ -336,6 +339,8 @@ func Run(target string, data []byte) (res *Result) {
 			_, _ = id2.ExtractPublicKey()
 			_ = id2.ShortString()
 		}
+	case "floodsub-stream":
+		return runFloodsubStream(data, ok)
 	case "keys":
 		if k, err := crypto.UnmarshalPublicKey(data); err == nil {
 			ok.Decoded = true
@@ -445,6 +450,8 @@ func Seeds(target string) [][]byte {
 		}
 	case "peer-id":
 		valid = append(valid, []byte(gen.PeerID(1)), []byte(gen.PeerID(1).String()), []byte{0x12, 0x20}, []byte{0x00, 0x24, 0x08, 0x01, 0x12, 0x20})
+	case "floodsub-stream":
+		valid = append(valid, floodsubStreamSeeds()...)
 	case "keys":
 		pb, _ := crypto.MarshalPublicKey(k.GetPublic())
 		kb, _ := crypto.MarshalPrivateKey(k)
